@@ -11,6 +11,7 @@ import os
 
 from .report import AnalysisError
 from .canon import canon
+from .normal import normalise
 
 REPO = os.environ.get('VERIF_REPO', '/repo')
 
@@ -21,7 +22,7 @@ class Module:
         self.text = text
         self.digest = hashlib.sha256(text.encode()).hexdigest()[:16]
         try:
-            self.tree = canon(ast.parse(text))
+            self.tree = normalise(canon(ast.parse(text)), rel)
         except SyntaxError as e:  # pragma: no cover
             raise AnalysisError(f'{rel}: does not parse: {e}')
         for node in ast.walk(self.tree):
